@@ -266,7 +266,7 @@ var jC12 = reg(&Judge{
 		Policies: []string{"", "no"}, MaxSteps: 4, Codes: []int{0, 1}, ShutdownStep: true, Ordered: true,
 		SignalBeh: []string{"hold", "hold", ""}, ShutdownCfg: true,
 		// a dependent may already be Terminating (stopped by request, slow to die) when the shutdown begins
-		APIOps: []string{sc.OpStop}},
+		APIOps: []string{sc.OpStop}, ReplicatedLeaves: true},
 	Oracle: oracle.C12,
 	Classify: func(h *sc.History, x *oracle.Idx) (bool, []string) {
 		var labels []string
